@@ -274,15 +274,25 @@ func runC33(c *Ctx) {
 		var pos token.Pos
 		for _, fn := range w.declaredFuncs("ai/vector") {
 			for _, ws := range w.writesOf(fn, fld, true) {
-				writers = append(writers, shortKey(fn.Key))
-				if fn.Obj == nil || fn.Obj.Name() != "SetDeduplication" {
-					pos = ws.Pos
+				// setter shape: an exported method whose whole body is this one assignment from a parameter or a literal
+				setter := fn.Obj != nil && fn.Obj.Exported() && fn.Decl != nil && len(fn.Body.List) == 1 && fn.Body.List[0] == ast.Stmt(asStmt(ws.Stmt))
+				if setter {
+					writers = append(writers, "setter "+shortKey(fn.Key))
+					continue
 				}
+				writers = append(writers, shortKey(fn.Key))
+				pos = ws.Pos
 			}
 		}
 		writers = dedup(writers)
 		c.Check(len(writers) >= 1, r5, "deduplicationEnabled writers inventoried", token.NoPos, fmt.Sprintf("%v", writers), "no writer found", nil)
-		c.Check(sameSet(writers, "SetDeduplication"), r5, "deduplicationEnabled is written only by SetDeduplication", pos, "setter only",
+		onlySetters := true
+		for _, wn := range writers {
+			if !strings.HasPrefix(wn, "setter ") {
+				onlySetters = false
+			}
+		}
+		c.Check(onlySetters, r5, "deduplicationEnabled is written only by SetDeduplication", pos, "setter only",
 			fmt.Sprintf("deduplicationEnabled is also assigned by %v: with the cleanup switched off inside an operation, an id that occurs again (a batch repeating an id, a re-upsert) keeps its superseded vector entry next to the new one - Query returns the id twice, one hit scored with the stale vector", writers), nil)
 		// and the cleanup in upsertItem is guarded by nothing else than that flag
 		fu := w.Fn("ai/vector.domainIndex.upsertItem")
@@ -327,4 +337,9 @@ func ordinalNode(g *Graph, p NPred, n *GNode) int {
 		}
 	}
 	return i
+}
+
+func asStmt(n ast.Node) ast.Stmt {
+	s, _ := n.(ast.Stmt)
+	return s
 }
